@@ -192,7 +192,13 @@ def splice(item, kind, clauses, loops, rewrites, rules, hints=()):
                 pos.append(m.start())
             for n_ord in sorted(loops, reverse=True):
                 if n_ord > len(pos):
-                    raise AnchorLost("loop %d not found" % n_ord)
+                    # the function has fewer loops than the specification names (e.g. a `while`
+                    # turned into an `if`): there is nothing to attach this invariant to; the
+                    # remaining clauses decide.  A loop that is still there in another shape is
+                    # left without invariant, which Verus rejects (reported undecided, not failed).
+                    k = "R6b loop clauses dropped: loop ordinal not present in the function body"
+                    rules[k] = rules.get(k, 0) + 1
+                    continue
                 p = pos[n_ord - 1]
                 b = text.find("{", p)
                 text = text[:b].rstrip() + "\n" + loops[n_ord].rstrip() + "\n" + text[b:]
